@@ -17,6 +17,37 @@ OPENB = lambda ras, rid: S.frame(S.OPEN, S.open_body(ras, bid=rid)).hex()
 KA = S.frame(S.KEEPALIVE).hex()
 
 
+# one session per peer presupposes one peer object per configured peer: the registry must refuse a second AddPeer of the same
+# remote address (whatever its textual form) while serving; these sequences run on real Server objects (function-level driver)
+import C20
+from common import Case
+OPNAMES = {40: "registry_script"}
+ORACLES = {}
+PY_ORACLES = {40: C20.py_registry}
+
+
+def cases(rng, tier):
+    cs = []
+    for _ in range(40 if tier == "quick" else 600):
+        n4 = rng.randint(2, 250)
+        keys = [(1, n4), (2, (1 << 32) + n4), (2, rng.randint(1, 9))]
+        ops = [5] if rng.random() < 0.7 else []
+        for _ in range(rng.randint(2, 8)):
+            kr, ir = rng.choice(keys)
+            r = rng.random()
+            if r < 0.6:
+                ops += [1, kr, ir, 65001, 65000, 0, 0, 90, 100179, rng.choice([0, 1])]
+            elif r < 0.75:
+                ops += [2, kr, ir]
+            elif r < 0.9:
+                ops += [4]
+            else:
+                ops += [3, kr, ir]
+        ops += [4, 6]
+        cs.append(Case(40, ops, [], "one-peer-object-per-address"))
+    return cs
+
+
 class Chaos:
     no_model = True
 
